@@ -97,7 +97,7 @@ CHECKS = {
  "C10": dict(
    text="Partial. Theorems: the comment gate emits only the configured line ending inside block comments, trims line comments idempotently, the conversion is idempotent. Validation: the whitespace discipline (every newline in the configured form, no other CR, "
         "indentation of the configured kind, one final line ending) evaluated by the extracted checker on every output of generated programs (LF, CRLF, mixed) x configurations; both regions clean. "
-        "L0 (Fmt0.v): a whole-formatter model on a fragment of Lua 5.1 (every statement kind but goto/labels; expressions without function bodies and long strings; escapes, all quote styles, statement-level line comments and empty lines; call sugar; tables written over several lines (nested indentation inside expressions) with comments and empty lines between their fields; the whitespace, quote, call_parentheses, space_after_function_names and collapse_simple_statement options), tied to the binary byte for byte on every run (svh l0 x drv_l0). On L0: the printed tokens pass the newline and indentation discipline for every program and configuration (format0_whitespace_discipline); the regenerated line-ending / indentation creators of context.rs satisfy it.",
+        "L0 (Fmt0.v): a whole-formatter model on a fragment of Lua 5.1 (every statement kind but goto/labels; expressions without function bodies and long strings; escapes, all quote styles, statement-level line comments and empty lines; call sugar; tables written over several lines (nested indentation inside expressions) with comments and empty lines between their fields; the whitespace, quote, call_parentheses, space_after_function_names and collapse_simple_statement options), tied to the binary byte for byte on every run (svh l0 x drv_l0). On L0: the printed tokens pass the newline and indentation discipline for every program and configuration (format0_whitespace_discipline), and a non-empty output ends with exactly one line ending, byte level, for every well-formed program (Fmt0Eof.format0_ends_with_one_line_ending; the empty program gives the empty output); the regenerated line-ending / indentation creators of context.rs satisfy the discipline.",
    design="5/C10", technique="Coq proof of the comment gate's whitespace + extracted whitespace-discipline checker on every output + L0 whole-formatter model (byte-for-byte tie) + regenerated creators",
    note=BASE_NOTE + "Ignored / out-of-range text is excluded by not generating directives and ranges here."),
  "C11": dict(
